@@ -40,6 +40,8 @@ pub struct Pattern {
     src: String,
     anchored_regex: Regex,
     prefix_regex: Regex,
+    /// Tells if the pattern was given as a glob
+    glob: bool,
 }
 
 impl FromStr for Pattern {
@@ -102,6 +104,7 @@ impl Pattern {
                 src: pattern,
                 anchored_regex,
                 prefix_regex,
+                glob: false,
             }),
             (Err(e), _) | (_, Err(e)) => Err(PatternError {
                 input: pattern,
@@ -166,7 +169,9 @@ impl Pattern {
     pub fn glob_with(glob: &str, opts: &PatternOpts) -> Result<Pattern, PatternError> {
         let result: IResult<&str, String> = Self::glob_to_regex(Scope::TopLevel, glob);
         match result {
-            Ok(("", regex)) => Self::regex_with(regex.as_str(), opts),
+            Ok(("", regex)) => {
+                Self::regex_with(regex.as_str(), opts).map(|p| Pattern { glob: true, ..p })
+            }
             Ok((remaining, _)) => Err(PatternError {
                 input: glob.to_string(),
                 cause: format!(
@@ -181,6 +186,11 @@ impl Pattern {
         }
     }
 
+    /// Tells if this pattern was given as a glob. In a glob, only `**` matches the separator.
+    pub fn is_glob(&self) -> bool {
+        self.glob
+    }
+
     /// Returns this pattern without the given literal text at its beginning.
     /// If the pattern doesn't start with that text, returns `None`.
     pub fn strip_literal_prefix(&self, prefix: &str) -> Option<Pattern> {
@@ -188,7 +198,11 @@ impl Pattern {
         let opts = PatternOpts {
             case_insensitive: self.anchored_regex.is_case_insensitive(),
         };
-        Pattern::regex_with(src, &opts).ok()
+        let stripped = Pattern::regex_with(src, &opts).ok()?;
+        Some(Pattern {
+            glob: self.glob,
+            ..stripped
+        })
     }
 
     /// Splits the pattern into the directory that is given literally at its beginning, and
